@@ -1,4 +1,5 @@
 import ServlinVerif.Props.C02
+import ServlinVerif.Props.HeadTable
 open Servlin.C02
 #print axioms C02_accepts_wf
 #print axioms C02_exposes_path_query
@@ -10,3 +11,5 @@ open Servlin.C02
 #print axioms trim_ows
 #print axioms byte_classes
 #print axioms C02_legacy_target
+#print axioms Servlin.HeadTable.headBytes_match
+#print axioms Servlin.HeadTable.headBytes_classes
